@@ -1,6 +1,7 @@
 package prop
 
 import (
+	"strings"
 	"encoding/json"
 	"sort"
 
@@ -51,11 +52,18 @@ func svcNewRequests(events []abci.Event) []svcBatch {
 		out = append(out, b)
 	}
 	// the module emits these events in map-iteration order; sort so the harness stays deterministic
+	for i := range out {
+		sort.Strings(out[i].RequestIDs)
+	}
 	sort.Slice(out, func(i, j int) bool {
 		if out[i].Service != out[j].Service {
 			return out[i].Service < out[j].Service
 		}
-		return out[i].Provider < out[j].Provider
+		if out[i].Provider != out[j].Provider {
+			return out[i].Provider < out[j].Provider
+		}
+		// several batches for one provider in one block: by their requests
+		return strings.Join(out[i].RequestIDs, ",") < strings.Join(out[j].RequestIDs, ",")
 	})
 	return out
 }
